@@ -659,6 +659,14 @@ theorem fp_vec_le_ge (s : Style) (a b : List (FP f)) (e : FP f) :
   · simp only [geVec, gtVec, neVec]
     cases lexLt b a <;> cases eqVec s a b e <;> rfl
 
+/-- `round` and `trunc` of an integer-valued floating-point number return it, in every comparison / rounding style, for
+    every magnitude — in particular from `2^digits` on, where every number of the format is an integer but `i+1` need
+    not be one (`T(lower+1)` rounds back to the argument: the defect repaired by fixes/C17_trunc_large.patch) -/
+theorem fp_round_trunc_int (s : Style) (rs : RStyle) (n i m : Int) (hm : 0 ≤ m)
+    (hT : ((i : Int) : FP f) = .fin n) (hI : FP.trunc (.fin n : FP f) = i) :
+    round s rs FP.trunc (.fin n : FP f) (.fin m) = i ∧ trunc s false rs FP.trunc (.fin n : FP f) (.fin m) = i :=
+  FP.round_trunc_int s rs n i m hm hT hI
+
 end floating
 
 -- the 8-bit format (grid unit 2^-9): 1 = 512, 1.125 = 576 (the next number after 1), epsilon 0.125 = 64, 0.0625 = 32.
@@ -672,6 +680,10 @@ example : ((.fin 576 : FP Fmt.mf8) * (.fin 96 : FP Fmt.mf8)) = .fin 112 := by de
 -- overflow: 240 - (-240) = +∞ and 2 · 240 = +∞, the laws still hold (eq is true: ∞ ≤ ∞)
 example : ((.fin 122880 : FP Fmt.mf8) - (.fin (-122880) : FP Fmt.mf8)) = .inf false ∧
     eqS .relativeWeak (.fin 122880 : FP Fmt.mf8) (.fin (-122880)) (.fin 1024) = true := by decide
+-- the 8-bit format: 16 = 8192 units is an integer, 17 is not a number of the format (T(17) = 16), absolute epsilon 0:
+-- the hypotheses of `fp_round_trunc_int` hold and trunc returns 16 (the unrepaired code returned 17)
+example : (((16 : Int) : FP Fmt.mf8) = .fin 8192 ∧ ((17 : Int) : FP Fmt.mf8) = .fin 8192 ∧ FP.trunc (.fin 8192 : FP Fmt.mf8) = 16) ∧
+    trunc .absolute false .downward FP.trunc (.fin 8192 : FP Fmt.mf8) (.fin 0) = 16 := by decide
 -- binary32: 1 and the next float above it compare equal with the default epsilon 2^-20 (grid unit 2^-149)
 example : eqS .relativeWeak (.fin (2 ^ 149) : FP Fmt.f32) (.fin (2 ^ 149 + 2 ^ 126)) (.fin (2 ^ 129)) = true := by decide
 
